@@ -185,3 +185,116 @@ def delta(old, new):
         if a["kind"] == b["kind"] == "file" and a["exec"] != b["exec"]:
             d["exec"].append(fid)
     return d
+
+
+# ---------------------------------------------------------------- listed classes
+
+def patterns_of(model):
+    """Patterns of the revision's own .bzrignore-upload (bare names only)."""
+    for fid in tm.children(model, tm.ROOT_ID):
+        e = model[fid]
+        if e["name"] == ".bzrignore-upload" and e["kind"] == "file":
+            return [ln for ln in e["content"].split("\n") if ln]
+    return []
+
+
+def _ancestors(model, fid):
+    out = []
+    p = model[fid]["parent"]
+    while p is not None and p != tm.ROOT_ID:
+        out.append(p)
+        p = model[p]["parent"]
+    return out
+
+
+def plain(path):
+    """Path that reads the same escaped and unescaped."""
+    return all(c.isascii() and (c.isalnum() or c in "/._-") for c in path)
+
+
+def listed_classes(old, new):
+    """Names of the listed (open, known) defect classes that an incremental
+    upload from revision `old` to revision `new` would run into. Generators
+    keep this set empty by construction; the classes are exercised one by one
+    in the 'shapes' kind."""
+    d = delta(old, new)
+    op, np_ = d["old_path"], d["new_path"]
+    out = set()
+    pats = patterns_of(new)
+    moved = set(f for f in old if f in new and op[f] != np_[f])   # path changed
+    renamed = set(d["renamed"])
+    kindch = set(d["kind"])
+    # --- symlinks
+    for f, e in new.items():
+        if e["kind"] != "symlink":
+            continue
+        fresh = f not in old or old[f]["kind"] != "symlink"
+        if fresh and e["parent"] != tm.ROOT_ID:
+            out.add("symlink-created-below-top-level")
+        if fresh and not (plain(np_[f]) and plain(e["content"])):
+            out.add("symlink-path-or-target-needs-escaping")
+        if not fresh and old[f]["content"] != e["content"]:
+            out.add("symlink-retargeted")
+    # --- exec bit of a renamed file whose text did not change
+    for f in renamed:
+        a, b = old[f], new[f]
+        if a["kind"] == b["kind"] == "file" and a["exec"] != b["exec"] \
+                and a["content"] == b["content"]:
+            out.add("exec-change-on-renamed-file")
+        if a["kind"] != b["kind"]:
+            out.add("kind-change-with-rename")
+    # --- paths that are stale / not there yet while directories are renamed
+    for f in renamed | kindch:
+        if any(a in moved for a in _ancestors(old, f)):
+            out.add("rename-or-kind-change-below-renamed-directory")
+    for f in renamed:
+        for a in _ancestors(new, f):
+            if a in moved:
+                out.add("rename-or-kind-change-below-renamed-directory")
+            if a not in old or a in kindch:
+                out.add("rename-into-directory-created-by-same-upload")
+    # --- rename onto the path of a removed directory that had content
+    removed_dirs = set(op[f] for f in d["removed"]
+                       if old[f]["kind"] == "directory" and tm.children(old, f))
+    for f in renamed:
+        if np_[f] in removed_dirs:
+            out.add("rename-onto-removed-nonempty-directory")
+    for f in d["removed"]:
+        if old[f]["kind"] == "directory" and tm.children(old, f) and \
+                any(a in moved for a in _ancestors(old, f)):
+            out.add("removed-nonempty-directory-below-renamed-directory")
+    # --- ignore handling
+    for f in renamed:
+        if ignored_by(pats, op[f]) != ignored_by(pats, np_[f]):
+            out.add("rename-across-ignore-boundary")
+    if set(patterns_of(old)) - set(pats):
+        out.add("ignore-pattern-dropped")
+    for f in tm.children(old, tm.ROOT_ID):
+        if old[f]["name"] in SPECIAL and (f not in new or f in renamed
+                                           or f in kindch):
+            out.add("special-file-removed-or-renamed")
+    return out
+
+
+def stale_after_full(old, new):
+    """Paths a full upload of `new` over a remote holding `old` leaves behind
+    (listed class: a full upload never deletes)."""
+    pats = patterns_of(new)
+    have = expected_remote(new, pats)
+    return sorted(p for p in expected_remote(old, patterns_of(old))
+                  if p not in have and not ignored_by(pats, p))
+
+
+def full_upload_classes(old, new):
+    """Listed classes a full upload of `new` over a remote holding `old` hits."""
+    out = set()
+    if stale_after_full(old, new):
+        out.add("full-upload-leaves-stale-paths")
+    pats = patterns_of(new)
+    have = expected_remote(old, patterns_of(old))
+    for p, v in expected_remote(new, pats).items():
+        if v[0] == "symlink" and p in have and have[p][0] == "file":
+            out.add("full-upload-symlink-over-remote-file")
+        if v[0] == "symlink" and not (plain(p) and plain(v[1])):
+            out.add("symlink-path-or-target-needs-escaping")
+    return out
